@@ -60,12 +60,18 @@ def near_tie(table, x, rel=1e-6):
     return len(ks) > 1 and abs(ks[0] - ks[1]) <= rel * max(1.0, abs(x))
 
 
-def pat_value(mult, t, step, start):
+def pat_value(mult, t, step, start, interp=False):
     if len(mult) == 0:
         return 1.0
     if len(mult) == 1:
         return mult[0]
-    return mult[int((t + start) // step) % len(mult)]
+    k = int((t + start) // step)
+    m0 = mult[k % len(mult)]
+    if not interp:
+        return m0
+    # options.time.pattern_interpolation: linear between the multiplier of this step and that of the next one (wrapping)
+    m1 = mult[(k + 1) % len(mult)]
+    return m0 + (m1 - m0) * ((t + start) - k * step) / float(step)
 
 
 def close(a, b, rel=1e-9, ab=1e-12):
@@ -90,6 +96,10 @@ def run_case(c, rng):
     if rng.random() < 0.5:
         o['pattern_start'] = rng.choice([0, o['pattern_timestep'], 3 * o['pattern_timestep'] + 600, 5400, 7 * 3600])
     wn = gnet.build(spec)
+    interp = rng.random() < 0.25
+    if interp:
+        wn.options.time.pattern_interpolation = True
+        c.count('pattern_interpolation_cases')
     if rng.random() < 0.7:
         wn.options.energy.global_efficiency = rng.choice([75.0, 60.0, 82.5])
     wn.options.energy.global_price = rng.choice([0.0, 3.61e-8, 1e-7])
@@ -116,7 +126,7 @@ def run_case(c, rng):
         for d in j['demands']:
             if category is not None and d['category'] != category:
                 continue
-            m = pat_value(pats[d['pattern']], t, step, start) if d['pattern'] else 1.0
+            m = pat_value(pats[d['pattern']], t, step, start, interp) if d['pattern'] else 1.0
             tot += d['base'] * m * mult_opt
         return tot
 
